@@ -5,7 +5,8 @@ is re-run for every k in 0..K+2 with the closing task cancelled in iteration k (
 I/O callbacks), by task.cancel() and by an enclosing cancel scope, combined with faults of the wrapped transport (close /
 send / receive raising, slow close, silent peer). Oracle: once the close operation has started and its task has finished with
 any outcome, every wrapped transport has had its aclose() entered and is closed, the outer object reports is_closing(), and a
-second close returns within a few loop iterations and zero virtual seconds.
+second close returns within a few loop iterations and zero virtual seconds. A cancellation request delivered while the close
+operation was suspended is never dropped: if the operation returns normally, CancelledError is raised at one of the next checkpoints.
 """
 
 from __future__ import annotations
